@@ -23,6 +23,7 @@ import (
 	"fmt"
 	"io/ioutil"
 	"math/big"
+	"os"
 	"path/filepath"
 	"sort"
 	"strconv"
@@ -969,6 +970,12 @@ type delegGen struct {
 	r       *rng.R
 	hostile bool
 	n       int
+	// exit family: from block exitAt on every delegator first asks for a reward withdrawal and then
+	// undelegates everything, and nobody delegates or donates any more: the pool runs empty while
+	// withdrawals and undelegations are still pending (0 = not an exit history)
+	exitAt int
+	block  int
+	asked  map[int]bool
 }
 
 func pickAmt(r *rng.R, ref *big.Int) *big.Int {
@@ -996,6 +1003,15 @@ func pickAmt(r *rng.R, ref *big.Int) *big.Int {
 	return q.Div(q, big.NewInt(int64(10+r.Intn(30))))
 }
 
+// halfOrOne is an amount a withdrawal of the reward balance x will accept
+func halfOrOne(x *big.Int) *big.Int {
+	h := new(big.Int).Rsh(x, 1)
+	if h.Sign() == 0 {
+		return big.NewInt(1)
+	}
+	return h
+}
+
 func (g *delegGen) next(d *delegRun) dTx {
 	r := g.r
 	// few actors so that one delegator acts several times per block
@@ -1009,6 +1025,32 @@ func (g *delegGen) next(d *delegRun) dTx {
 	bal := v.rec(recBal, a, 0, &bad)
 	act := v.rec(recActive, a, 0, &bad)
 	rw := v.rec(recRw, a, 0, &bad)
+	if g.exitAt > 0 && g.block >= g.exitAt {
+		// everything out first, the reward withdrawal afterwards: the pool is debited when an
+		// undelegation matures, so it is empty at the maturity of a withdrawal only if that was
+		// asked for in the same block as the last undelegation or later
+		step := func(i int) *dTx {
+			x := v.rec(recActive, d.addrs[i], 0, &bad)
+			if x != nil && x.Sign() > 0 {
+				return &dTx{Kind: "undelegate", Who: i, Amt: new(big.Int).Set(x)}
+			}
+			if xr := v.rec(recRw, d.addrs[i], 0, &bad); xr != nil && xr.Sign() > 0 && !g.asked[i] {
+				g.asked[i] = true
+				return &dTx{Kind: "withdraw", Who: i, Amt: halfOrOne(xr)}
+			}
+			return nil
+		}
+		if t := step(who); t != nil {
+			return *t
+		}
+		for i := 0; i < g.n; i++ {
+			if t := step(i); t != nil {
+				return *t
+			}
+		}
+		d.res.Counters["exit_everybody_out_txs"]++
+		return dTx{Kind: "transfer", Who: who, Amt: big.NewInt(int64(r.Intn(1000000))), To: r.Intn(g.n)}
+	}
 	if g.hostile && r.Intn(6) == 0 {
 		x := new(big.Int).Mul(big.NewInt(int64(-1-r.Intn(300))), olt18)
 		if r.Intn(4) == 0 {
@@ -1042,6 +1084,11 @@ func (g *delegGen) next(d *delegRun) dTx {
 		if r.Intn(6) == 0 {
 			amt = pickAmt(r, bal) // whole balance / one above: the debit or the fee step refuses
 		}
+		if g.exitAt > 0 {
+			// a donation (SENDPOOL, or a plain SEND to the pool address) never leaves the pool again:
+			// an exit history has none, so that the pool balance really reaches zero
+			return dTx{Kind: "transfer", Who: who, Amt: big.NewInt(int64(r.Intn(1000000))), To: r.Intn(g.n)}
+		}
 		return dTx{Kind: "sendpool", Who: who, Amt: amt}
 	case x < 90:
 		amt := big.NewInt(int64(r.Intn(1000000)))
@@ -1052,6 +1099,9 @@ func (g *delegGen) next(d *delegRun) dTx {
 			if g.hostile { // SEND checks the sign on the deliver path: refused
 				amt = big.NewInt(int64(-1 - r.Intn(1000)))
 			}
+		}
+		if g.exitAt > 0 { // "send" pays the pool address directly: a donation too
+			return dTx{Kind: "transfer", Who: who, Amt: big.NewInt(int64(r.Intn(1000000))), To: r.Intn(g.n)}
 		}
 		return dTx{Kind: "send", Who: who, Amt: amt}
 	case x < 96:
@@ -1342,6 +1392,9 @@ func RunDeleg(opt DelegOptions) (*Result, error) {
 		if len(res.Samples) < 2 && nontriv {
 			res.Samples = append(res.Samples, shortAll(d.hl.Lines[:min(len(d.hl.Lines), 40)]))
 		}
+		if os.Getenv("DELEG_DUMP") == fmt.Sprint(d.c) { // diagnosis aid: the whole history of one case
+			res.Samples = append(res.Samples, d.hl.Lines)
+		}
 		TruncateAppLog()
 	}
 	// corpus first
@@ -1372,11 +1425,16 @@ func RunDeleg(opt DelegOptions) (*Result, error) {
 		if err != nil {
 			return nil, err
 		}
-		g := &delegGen{r: r.Fork(), hostile: i%5 == 4, n: n}
+		g := &delegGen{r: r.Fork(), hostile: i%5 == 4, n: n, asked: map[int]bool{}}
 		if g.hostile {
 			res.Counters["hostile_histories"]++
 		}
+		if i%6 == 3 {
+			g.exitAt = 3 + i%4
+			res.Counters["exit_histories"]++
+		}
 		for bi := 0; bi < opt.Blocks && !d.stopped; bi++ {
+			g.block = bi
 			dt := int64(1 + r.Intn(5))
 			if r.Intn(6) == 0 {
 				dt = int64(500 + r.Intn(3000))
